@@ -368,8 +368,985 @@ def run(c):
               'a grid case is non-trivial when at least one concrete operand assignment inside the ranges has a defined result; distinct by (class, ranges)')
     c.assumptions += ['64-bit overflow of numpy integers is not modelled (Python ints are unbounded)',
                       'RavelIndex is used with ia >= 0 only (documented domain: ia indexes an axis of length na; all construction sites pass dofmaps, Range or x % n)']
-    broken = []
-    T = ops_table()
-    stream_grid(c, T)
+    broken = c.build_and_audit()
+    c.log('proofs built and audited')
+    import traceback
+    def guarded(name, fn, *a):
+        # an exception escaping a stream comes from the code under test behaving differently from the pinned tree (on which every
+        # stream runs through for every seed): that is a broken correspondence, not an infrastructure problem
+        try:
+            fn(c, *a)
+        except Infra:
+            raise
+        except Exception as e:
+            tb = traceback.format_exc()
+            c.obligation('stream:' + name, False, 'correspondence', 'stream aborted by %s' % type(e).__name__)
+            c.broken_no_input('stream:' + name, 'stream aborted by %s: %s' % (type(e).__name__, str(e)[:200]), dict(stream=name, traceback=tb[-3000:]))
+        c.log(name + ' done')
+    guarded('grid', lambda c: stream_grid(c, ops_table()))
+    guarded('consumers', stream_consumers)
+    guarded('expr', stream_expr)
+    guarded('dag', stream_dag)
+    guarded('func', stream_func)
     for b in broken:
         c.broken_no_input('proof', b, dict(detail=b))
+
+
+# ---------------------------------------------------------------------------------------------------------------------
+# (M2) the expression language of Model/C06Expr.lean against real DAGs
+
+class ExprGen:
+    """generates (tokens, real node) pairs; a vector also carries its length spec (tokens, real node) mirroring `node.shape[0]`"""
+
+    def __init__(self, rng):
+        self.rng = rng
+        self.ev, self.types, self.RArg = lib()
+        self.nloop = 0
+        self.args = {}      # name -> (lo, hi, length spec or None)
+        self.by_spec = {}
+
+    RANGES = [(-inf, inf), (0, 3), (-2, 2), (1, 3), (-3, -1), (0, inf), (-inf, 0), (0, 0), (2, 2), (-inf, -1), (1, inf), (0, 1)]
+
+    def argname(self, lo, hi, L):
+        key = (lo, hi, L[0] if L else None)
+        names = self.by_spec.setdefault(key, [])
+        if names and self.rng.random() < .5:
+            return self.rng.choice(names)
+        n = len(self.args); self.args[n] = (lo, hi, L); names.append(n)
+        return n
+
+    def const_s(self, v):
+        return 'const s 1 %d' % v, self.ev.constant(v)
+
+    def length_spec(self):
+        r = self.rng.random()
+        if r < .3: return self.const_s(2)
+        if r < .5: return self.const_s(3)
+        if r < .58: return self.const_s(0)
+        if r < .66: return self.const_s(1)
+        lo, hi = self.rng.choice([(0, 3), (1, 3), (0, inf), (2, 2), (0, 0), (0, 1)])
+        n = self.argname(lo, hi, None)
+        return 'argS %d %s %s' % (n, snum(lo), snum(hi)), S('a%d' % n, (lo, hi))
+
+    def index_scalar(self, d, loops):
+        """a scalar whose range has a non-negative lower bound (usable as a length)"""
+        r = self.rng.random()
+        if d <= 0 or r < .4: return self.length_spec()
+        if r < .55 and loops:
+            return self.loopindex(loops)
+        if r < .7:
+            t, n = self.scalar(d-1, loops); return 'abs ' + t, self.ev.Absolute(n)
+        if r < .85:
+            (t1, n1), (t2, n2) = self.scalar(d-1, loops), self.length_spec(); return 'inRange %s %s' % (t1, t2), self.ev.InRange(n1, n2)
+        (t1, n1), (t2, n2) = self.index_scalar(d-1, loops), self.index_scalar(d-1, loops)
+        return 'add %s %s' % (t1, t2), self.ev.Add(fms(n1, n2))
+
+    def loopindex(self, loops):
+        lid, (lt, ln) = self.rng.choice(loops)
+        return 'loopIndex %d %s' % (lid, lt), self.ev.loop_index('l%d' % lid, ln)
+
+    def divisor(self, d, loops):
+        r = self.rng.random()
+        if r < .35: return self.const_s(self.rng.choice([-3, -2, -1, 1, 2, 3]))
+        if r < .7:
+            lo, hi = self.rng.choice([(1, 3), (-3, -1), (1, inf), (-inf, -1), (2, 2)])
+            n = self.argname(lo, hi, None); return 'argS %d %s %s' % (n, snum(lo), snum(hi)), S('a%d' % n, (lo, hi))
+        t, n = self.scalar(d-1, loops)
+        return 'add abs %s const s 1 1' % t, self.ev.Add(fms(self.ev.Absolute(n), self.ev.constant(1)))
+
+    def scalar(self, d, loops):
+        ev, rng = self.ev, self.rng
+        if d <= 0 or rng.random() < .15:
+            r = rng.random()
+            if r < .3: return self.const_s(rng.randint(-3, 4))
+            if r < .5 and loops: return self.loopindex(loops)
+            lo, hi = rng.choice(self.RANGES); n = self.argname(lo, hi, None)
+            return 'argS %d %s %s' % (n, snum(lo), snum(hi)), S('a%d' % n, (lo, hi))
+        k = rng.choice(['neg', 'abs', 'sign', 'add', 'add', 'mul', 'mul', 'floordiv', 'mod', 'min', 'max', 'inRange', 'normDim', 'ravelIndex', 'take', 'sum', 'sum', 'loopSum', 'idx'])
+        if k == 'idx': return self.index_scalar(d, loops)
+        if k in ('neg', 'abs', 'sign'):
+            t, n = self.scalar(d-1, loops)
+            return k + ' ' + t, {'neg': ev.Negative, 'abs': ev.Absolute, 'sign': ev.Sign}[k](n)
+        if k in ('add', 'mul', 'min', 'max'):
+            (t1, n1), (t2, n2) = self.scalar(d-1, loops), self.scalar(d-1, loops)
+            node = ev.Add(fms(n1, n2)) if k == 'add' else ev.Multiply(fms(n1, n2)) if k == 'mul' else ev.Minimum(n1, n2) if k == 'min' else ev.Maximum(n1, n2)
+            return '%s %s %s' % (k, t1, t2), node
+        if k in ('floordiv', 'mod'):
+            (t1, n1), (t2, n2) = self.scalar(d-1, loops), self.divisor(d-1, loops)
+            return '%s %s %s' % (k, t1, t2), (ev.FloorDivide if k == 'floordiv' else ev.Mod)(n1, n2)
+        if k == 'inRange':
+            (t1, n1), (t2, n2) = self.scalar(d-1, loops), self.index_scalar(d-1, loops)
+            return 'inRange %s %s' % (t1, t2), ev.InRange(n1, n2)
+        if k == 'normDim':
+            (t1, n1), (t2, n2) = self.index_scalar(d-1, loops), self.scalar(d-1, loops)
+            return 'normDim %s %s' % (t1, t2), ev.NormDim(n1, n2)
+        if k == 'ravelIndex':
+            (t1, n1), (t2, n2), (t3, n3) = self.index_scalar(d-1, loops), self.scalar(d-1, loops), self.index_scalar(d-1, loops)
+            return 'ravelIndex %s %s %s' % (t1, t2, t3), ev.RavelIndex(n1, n2, ev.constant(7), n3)
+        if k == 'take':
+            (tf, nf, L), (ti, ni) = self.vector(d-1, loops), self.scalar(d-1, loops)
+            return 'take %s %s' % (tf, ti), ev.Take(nf, ni)
+        if k == 'sum':
+            tf, nf, L = self.vector(d-1, loops)
+            return 'sum %s %s' % (tf, L[0]), ev.Sum(nf)
+        if k == 'loopSum':
+            lid = self.nloop; self.nloop += 1
+            L = self.index_scalar(min(d-1, 1), loops)
+            tb, nb = self.scalar(d-1, loops + [(lid, L)])
+            return 'loopSum %d %s %s' % (lid, L[0], tb), ev.loop_sum(nb, ev.loop_index('l%d' % lid, L[1]))
+        raise AssertionError(k)
+
+    def vector(self, d, loops, L=None):
+        """returns (tokens, node, length spec)"""
+        ev, rng = self.ev, self.rng
+        free = L is None
+        if L is None: L = self.length_spec() if rng.random() < .8 else self.index_scalar(min(d, 1), [l for l in loops if False])
+        if d <= 0 or rng.random() < .15:
+            r = rng.random()
+            if r < .25 and L[0].startswith('const s 1 '):
+                k = int(L[0].split()[-1]); vals = [rng.randint(-3, 4) for _ in range(k)]
+                return 'const v %d %s' % (k, ' '.join(map(str, vals))), ev.constant(numpy.array(vals, dtype=int)), L
+            if r < .45: return 'range ' + L[0], ev.Range(L[1]), L
+            if r < .6:
+                t, n = self.scalar(d-1, loops); return 'insertAxis %s %s' % (t, L[0]), ev.InsertAxis(n, L[1]), L
+            lo, hi = rng.choice(self.RANGES); n = self.argname(lo, hi, L)
+            return 'argV %d %s %s %s' % (n, snum(lo), snum(hi), L[0]), S('a%d' % n, (lo, hi), (L[1],)), L
+        ks = ['neg', 'abs', 'sign', 'add', 'mul', 'floordiv', 'mod', 'min', 'max', 'inRange', 'normDim', 'ravelIndex', 'take', 'insertAxis']
+        if free: ks += ['sizesToOffsets', 'sizesToOffsets', 'loopConcat', 'loopConcat', 'loopConcat']
+        k = rng.choice(ks)
+        if k in ('neg', 'abs', 'sign'):
+            t, n, _ = self.vector(d-1, loops, L)
+            return k + ' ' + t, {'neg': ev.Negative, 'abs': ev.Absolute, 'sign': ev.Sign}[k](n), L
+        if k in ('add', 'mul', 'min', 'max'):
+            (t1, n1, _), (t2, n2, _) = self.vector(d-1, loops, L), self.vector(d-1, loops, L)
+            node = ev.Add(fms(n1, n2)) if k == 'add' else ev.Multiply(fms(n1, n2)) if k == 'mul' else ev.Minimum(n1, n2) if k == 'min' else ev.Maximum(n1, n2)
+            return '%s %s %s' % (k, t1, t2), node, L
+        if k in ('floordiv', 'mod'):
+            (t1, n1, _), (t2, n2) = self.vector(d-1, loops, L), self.divisor(d-1, loops)
+            return '%s %s insertAxis %s %s' % (k, t1, t2, L[0]), (ev.FloorDivide if k == 'floordiv' else ev.Mod)(n1, ev.InsertAxis(n2, L[1])), L
+        if k == 'inRange':
+            (t1, n1, _), (t2, n2) = self.vector(d-1, loops, L), self.index_scalar(d-1, loops)
+            return 'inRange %s %s' % (t1, t2), ev.InRange(n1, n2), L
+        if k == 'normDim':
+            (t1, n1), (t2, n2, _) = self.index_scalar(d-1, loops), self.vector(d-1, loops, L)
+            return 'normDim insertAxis %s %s %s' % (t1, L[0], t2), ev.NormDim(ev.InsertAxis(n1, L[1]), n2), L
+        if k == 'ravelIndex':
+            (t3, n3) = self.index_scalar(d-1, loops)
+            if rng.random() < .5:
+                (t1, n1, _), (t2, n2) = self.vector(d-1, loops, L), self.scalar(d-1, loops)
+                if not t1.startswith(('range', 'abs', 'const v')) or any(x.startswith('-') for x in t1.split()):
+                    t1, n1 = 'abs ' + t1, ev.Absolute(n1)
+            else:
+                (t1, n1), (t2, n2, _) = self.index_scalar(d-1, loops), self.vector(d-1, loops, L)
+            return 'ravelIndex %s %s %s' % (t1, t2, t3), ev.RavelIndex(n1, n2, ev.constant(7), n3), L
+        if k == 'take':
+            (tf, nf, _), (ti, ni, _) = self.vector(d-1, loops), self.vector(d-1, loops, L)
+            return 'take %s %s' % (tf, ti), ev.Take(nf, ni), L
+        if k == 'insertAxis':
+            t, n = self.scalar(d-1, loops); return 'insertAxis %s %s' % (t, L[0]), ev.InsertAxis(n, L[1]), L
+        if k == 'sizesToOffsets':
+            t, n, _ = self.vector(d-1, loops, L)
+            t, n = 'abs ' + t, ev.Absolute(n)
+            return 'sizesToOffsets %s %s' % (t, L[0]), ev._SizesToOffsets(n), ('add %s const s 1 1' % L[0], ev.Add(fms(L[1], ev.constant(1))))
+        if k == 'loopConcat':
+            lid = self.nloop; self.nloop += 1
+            N = self.index_scalar(min(d-1, 1), loops)
+            inner = loops + [(lid, N)]
+            if rng.random() < .5:
+                Lb = self.const_s(rng.choice([0, 1, 2]))
+            elif rng.random() < .6:
+                Lb = self.loopindex([(lid, N)])          # triangular: the chunk size is the loop index
+            else:
+                Lb = self.index_scalar(1, inner)
+            tb, nb, _ = self.vector(d-1, inner, Lb)
+            index = ev.loop_index('l%d' % lid, N[1])
+            node = ev.loop_concatenate(nb, index)
+            one = 'const s 1 1'
+            if Lb[1].isconstant:
+                ltok = 'take sizesToOffsets insertAxis %s %s %s %s' % (Lb[0], N[0], N[0], N[0])
+            else:
+                cs = 'loopConcat %d %s insertAxis %s %s %s' % (lid, N[0], Lb[0], one, one)
+                cs_len = 'take sizesToOffsets insertAxis %s %s %s %s' % (one, N[0], N[0], N[0])
+                ltok = 'take sizesToOffsets %s %s %s' % (cs, cs_len, N[0])
+            return 'loopConcat %d %s %s %s' % (lid, N[0], tb, Lb[0]), node, (ltok, node.shape[0])
+        raise AssertionError(k)
+
+    def environment(self):
+        """honest argument values: inside the declared ranges, with the declared lengths (evaluated recursively)"""
+        vals = {}
+        def value(lo, hi):
+            l = -4 if lo == -inf else lo; h = 4 if hi == inf else hi
+            return self.rng.randint(int(l), int(h))
+        # scalars first (lengths are scalars), then vectors in order of creation (a length spec only refers to earlier names)
+        for n, (lo, hi, L) in sorted(self.args.items()):
+            if L is None: vals[n] = [value(lo, hi)]
+        return vals, value
+
+
+def real_deps(node):
+    ev = lib()[0]
+    out = set()
+    for a in node.arguments:
+        if isinstance(a, ev._LoopIndex): out.add('l' + str(a.loop_id)[1:])
+        else: out.add('a' + a.name[1:])
+    return out
+
+
+def stream_expr(c):
+    """(M2) model Expr vs real DAG: range, arguments, evaluated values, and the value preservation of `simplified`"""
+    ev = lib()[0]
+    N = 250 if c.tier == 'quick' else 6000
+    reqs = []; meta = []
+    ntry = 0
+    while len(meta) < N and ntry < 20 * N:
+        ntry += 1
+        g = ExprGen(c.rng)
+        depth = c.rng.choice([1, 2, 2, 3, 3, 4])
+        try:
+            if c.rng.random() < .5:
+                tok, node = g.scalar(depth, []); L = None
+            else:
+                tok, node, L = g.vector(depth, [])
+        except AssertionError:
+            c.count('expr-ctor-raise'); continue
+        except Exception as e:
+            c.count('expr-ctor-exc:' + type(e).__name__); continue
+        # environment: scalars, then vector lengths by evaluating the real length nodes
+        vals, value = g.environment()
+        ok = True
+        for n, (lo, hi, Ls) in sorted(g.args.items()):
+            if Ls is None: continue
+            try:
+                k = int(evaluate(Ls[1], {'a%d' % m: (v[0] if g.args[m][2] is None else v) for m, v in vals.items()}))
+            except Exception:
+                ok = False; break
+            vals[n] = [value(lo, hi) for _ in range(max(k, 0))]
+        if not ok:
+            c.count('expr-env-fail'); continue
+        envs = ';'.join('%d:%s' % (n, ','.join(map(str, v))) for n, v in vals.items())
+        for t, nd, kind in [(tok, node, 'top')] + ([(L[0], L[1], 'length')] if L is not None else []):
+            reqs.append('expr|%s|%s|' % (t, envs)); meta.append((t, nd, kind, g, vals))
+    ans = c.model(reqs)
+    ndis = collections.Counter(); nunsound = 0
+    for (tok, node, kind, g, vals), a in zip(meta, ans):
+        if a == 'bad-request':
+            raise Infra('lean driver rejected expr %r' % tok)
+        f = dict(x.split('=', 1) for x in a.split(';'))
+        args = {'a%d' % m: (v[0] if g.args[m][2] is None else numpy.array(v, dtype=int)) for m, v in vals.items()}
+        try:
+            rb = canon(node._intbounds)
+        except AssertionError:
+            rb = 'raise'
+        except Exception as e:
+            rb = 'raise'; c.count('expr-bounds-exc:' + type(e).__name__)
+        try:
+            with numpy.errstate(all='ignore'):
+                rv = flat_ints(evaluate(node, args))
+        except Exception as e:
+            rv = 'raise'
+        rdeps = real_deps(node)
+        mdeps = set(filter(None, f['deps'].split(',')))
+        head = tok.split()[0]
+        c.count('expr-head:' + head); c.count('expr-kind:' + kind)
+        for w in set(tok.split()):
+            if w.isalpha(): c.count('expr-op:' + w)
+        c.case(('expr', tok, tuple(sorted(vals.items()))), nontrivial=len(tok.split()) > 4)
+        replay = dict(stream='expr', tokens=tok, arguments={k: flat_ints(v) for k, v in args.items()}, real_bounds=rb, real_value=rv, real_deps=sorted(rdeps), model=a)
+        # --- property oracle on the real code: value inside the announced range
+        if rb.startswith('ok') and rv != 'raise':
+            lo, hi = rb.split()[1:]
+            lo = float(lo) if 'inf' in lo else int(lo); hi = float(hi) if 'inf' in hi else int(hi)
+            out = [x for x in rv if not (lo <= x <= hi)]
+            if out:
+                nunsound += 1
+                culprit = first_unsound(node, args) or type(node).__name__
+                c.failing_input('intbounds-unsound:' + culprit, 'expression %s evaluates to %r outside its announced range %s' % (tok, out[0], rb), replay)
+                continue
+        # --- property oracle: the result depends only on announced arguments (checked by the (V) stream by perturbation); here: model tie
+        mv = f['eval'] if f['eval'] == 'raise' else [int(x) for x in f['eval'].split()]
+        # announced shape: the Lean `lenOf` against the real `shape` (range and value) and against the evaluated array
+        if node.ndim <= 1 and rv != 'raise':
+            if node.ndim == 0:
+                rlen, rlenb = 'scalar', 'scalar'
+            else:
+                try:
+                    rlenb = canon(node.shape[0]._intbounds)
+                except Exception:
+                    rlenb = 'raise'
+                try:
+                    rlen = str(int(evaluate(node.shape[0], args)))
+                except Exception:
+                    rlen = 'raise'
+                if rlen != 'raise' and int(rlen) != len(rv):
+                    c.failing_input('metadata-wrong:' + type(node).__name__, 'announced length %s, delivered %d: %s' % (rlen, len(rv), tok), replay)
+            if (f['len'], f['lenbounds']) != (rlen, rlenb):
+                ndis['shape'] += 1
+                c.broken_no_input('corr:expr:shape', 'announced shape: model (%s, %s), real (%s, %s) for %s' % (f['len'], f['lenbounds'], rlen, rlenb, tok), replay)
+        if f['bounds'] != rb: ndis['bounds'] += 1
+        if mdeps != rdeps: ndis['deps'] += 1
+        eval_differs = mv != rv
+        if eval_differs and rv == 'raise' and mv != 'raise' and ('loopConcat' in tok or 'loopSum' in tok):
+            # the compiled code evaluates loop-invariant sub-expressions even if the loop runs zero times; the model is lazy
+            c.count('expr-hoisted-invariant-raises'); eval_differs = False
+        if eval_differs: ndis['eval'] += 1
+        if f['bounds'] != rb or mdeps != rdeps or eval_differs:
+            c.sample(dict(replay, disagreement=True), limit=12)
+            c.broken_no_input('corr:expr:' + ('bounds' if f['bounds'] != rb else 'deps' if mdeps != rdeps else 'eval'),
+                              'model Expr and real DAG disagree on %s' % tok, replay)
+        else:
+            c.traces += 1
+        if f['index'] == '1': c.count('expr-isindex')
+        if f['simp'] != 'none': c.count('expr-consumer-fires:' + head)
+        # --- consumer rewrites on the real code preserve the value
+        if rv != 'raise' and kind == 'top':
+            try:
+                with numpy.errstate(all='ignore'):
+                    sv = flat_ints(evaluate(node, args, simplify=True))
+            except Exception as e:
+                # e.g. InRange._intbounds raising while simplifying Take(Range(n), i) for an index that is never evaluated
+                c.count('expr-simplify-raises:' + type(e).__name__); sv = rv
+            if sv != rv:
+                c.count('expr-simplified-differs')
+                culprit = first_unsound(node, args)
+                if culprit:
+                    c.failing_input('intbounds-unsound:' + culprit, 'simplified value differs and a sub-node leaves its announced range: %s' % tok, dict(replay, simplified_value=sv))
+                else:
+                    c.broken_no_input('consumer:simplified', 'simplified DAG evaluates differently although no node leaves its range (not a C06 matter unless a range consumer did it): %s' % tok,
+                                      dict(replay, simplified_value=sv))
+    c.sample(dict(stream='expr', tokens=meta[0][0], model=ans[0]))
+    for k in ('bounds', 'deps', 'eval', 'shape'):
+        c.obligation('corr:expr:' + k, ndis[k] == 0, 'correspondence', '%d expressions, %d disagreements' % (len(meta), ndis[k]))
+    c.obligation('expr:values-in-range', nunsound == 0, 'correspondence', '%d expressions evaluated' % len(meta))
+
+
+def walk(node, seen=None):
+    ev = lib()[0]
+    seen = seen if seen is not None else {}
+    if id(node) in seen: return seen
+    seen[id(node)] = node
+    for d in node.dependencies:
+        if isinstance(d, ev.Evaluable): walk(d, seen)
+    return seen
+
+
+def first_unsound(node, args):
+    """class name of a deepest loop-free integer sub-node whose evaluated value leaves its announced range"""
+    ev = lib()[0]
+    best = None
+    for sub in walk(node).values():
+        if not isinstance(sub, ev.Array) or sub.dtype != int: continue
+        if any(isinstance(a, ev._LoopIndex) for a in sub.arguments): continue
+        try:
+            lo, hi = sub._intbounds
+            with numpy.errstate(all='ignore'):
+                v = flat_ints(evaluate(sub, args))
+        except Exception:
+            continue
+        if any(not (lo <= x <= hi) for x in v):
+            size = len(walk(sub))
+            if best is None or size < best[0]: best = (size, type(sub).__name__)
+    return best and best[1]
+
+
+# ---------------------------------------------------------------------------------------------------------------------
+# (V) random real DAGs: every integer sub-node at every loop iteration inside its range; announced shape / dtype / ndim / arguments
+
+class DagGen:
+    """bottom-up pool of well-typed real evaluable nodes (dtype, constant or computed shapes), with honest argument values"""
+
+    def __init__(self, rng, prefix='g'):
+        self.rng = rng
+        self.ev = lib()[0]
+        self.prefix = prefix
+        self.argvals = {}        # name -> callable(env) -> value (depends on lengths) ; resolved in order of creation
+        self.order = []
+        self.pool = []           # nodes outside loops
+        self.nloop = 0
+
+    # ---- leaves
+    def const_int(self, shape):
+        return self.ev.constant(numpy.array([self.rng.randint(-3, 4) for _ in range(int(numpy.prod(shape)))], dtype=int).reshape(shape))
+
+    def new_arg(self, shape_nodes, dtype, lo=-inf, hi=inf):
+        name = '%s%d' % (self.prefix, len(self.order))
+        if dtype == int:
+            node = S(name, (lo, hi), tuple(shape_nodes))
+        else:
+            node = self.ev.Argument(name, tuple(shape_nodes), dtype)
+        def value(env, shape_nodes=shape_nodes, dtype=dtype, lo=lo, hi=hi):
+            shape = tuple(int(evaluate(n, env)) for n in shape_nodes)
+            size = int(numpy.prod(shape)) if shape else 1
+            if dtype == int:
+                l = -4 if lo == -inf else int(lo); h = 4 if hi == inf else int(hi)
+                return numpy.array([self.rng.randint(l, h) for _ in range(size)], dtype=int).reshape(shape)
+            if dtype == bool:
+                return numpy.array([self.rng.random() < .5 for _ in range(size)], dtype=bool).reshape(shape)
+            return numpy.array([self.rng.randint(-8, 8) / 4 for _ in range(size)], dtype=float).reshape(shape)
+        self.argvals[name] = value; self.order.append(name)
+        return node
+
+    def length(self):
+        r = self.rng.random()
+        c = self.ev.constant
+        if r < .7: return c(self.rng.choice([0, 1, 2, 2, 3, 3, 4]))
+        lo, hi = self.rng.choice([(0, 3), (1, 3), (0, inf), (2, 2), (1, inf)])
+        return self.new_arg((), int, lo, hi if hi != inf else inf) if hi != inf else self.ev.Minimum(self.new_arg((), int, lo, inf), c(3)) if self.rng.random() < .5 else self.new_arg((), int, lo, 3)
+
+    def leaf(self, extra=()):
+        rng, ev = self.rng, self.ev
+        r = rng.random()
+        if extra and r < .25: return rng.choice(extra)
+        shape = [self.length() for _ in range(rng.choice([0, 0, 1, 1, 1, 2]))]
+        if r < .45 and all(isinstance(n, ev.Constant) for n in shape):
+            return self.const_int(tuple(int(n.value) for n in shape))
+        if r < .85:
+            lo, hi = rng.choice(ExprGen.RANGES)
+            return self.new_arg(shape, int, lo, hi)
+        if r < .93: return self.new_arg(shape, float)
+        return self.new_arg(shape, bool)
+
+    # ---- one random operation on members of `pool`
+    def step(self, pool, loopidx=()):
+        rng, ev = self.rng, self.ev
+        c = ev.constant
+        ints = [n for n in pool if n.dtype == int]
+        def pick(pred=lambda n: True, frm=None):
+            cands = [n for n in (frm if frm is not None else pool) if pred(n)]
+            return rng.choice(cands) if cands else None
+        def same_shape(a):
+            return pick(lambda n: n.dtype == a.dtype and n.shape == a.shape and n is not a) or a
+        def as_shape(x, like):
+            """scalar int node broadcast to the shape of `like`"""
+            for n in like.shape: x = ev.InsertAxis(x, n)
+            return x
+        k = rng.choice(['unary', 'binary', 'binary', 'divmod', 'cmp', 'insertaxis', 'transpose', 'sum', 'sum', 'takediag', 'ravel', 'unravel', 'take', 'take',
+                        'inflate', 'inflate', 'range', 'ravelindex', 'offsets', 'searchsorted', 'argsort', 'find', 'loopsum', 'loopconcat', 'loopconcat', 'float', 'power',
+                        'inrange', 'normdim', 'einsum', 'diagonalize', 'concat', 'minmaxconst', 'product', 'choose', 'poly'])
+        a = pick(lambda n: n.dtype == int)
+        if a is None: return self.leaf(loopidx)
+        if k == 'unary': return rng.choice([ev.Negative, ev.Absolute, ev.Sign])(a)
+        if k == 'binary':
+            b = same_shape(a)
+            return rng.choice([lambda: ev.Add(fms(a, b)), lambda: ev.Multiply(fms(a, b)), lambda: ev.Minimum(a, b), lambda: ev.Maximum(a, b), lambda: ev.subtract(a, b)])()
+        if k == 'divmod':
+            b = same_shape(a)
+            d = ev.Add(fms(ev.Absolute(b), as_shape(c(1), b)))
+            if rng.random() < .4: d = ev.Negative(d)
+            return rng.choice([ev.FloorDivide, ev.Mod])(a, d)
+        if k == 'cmp':
+            b = same_shape(a)
+            return ev.BoolToInt(rng.choice([ev.Greater, ev.Equal, ev.Less])(a, b))
+        if k == 'insertaxis': return ev.InsertAxis(a, self.length())
+        if k == 'transpose':
+            a = pick(lambda n: n.ndim >= 2) or a
+            if a.ndim < 2: return ev.InsertAxis(a, c(2))
+            perm = list(range(a.ndim)); rng.shuffle(perm)
+            return ev.Transpose(a, tuple(perm))
+        if k == 'sum':
+            a = pick(lambda n: n.dtype == int and n.ndim >= 1) or a
+            return ev.Sum(a) if a.ndim else a
+        if k == 'product':
+            a = pick(lambda n: n.dtype == int and n.ndim >= 1) or a
+            return ev.Product(a) if a.ndim else a
+        if k == 'takediag':
+            a = pick(lambda n: n.ndim >= 2 and n.shape[-1] == n.shape[-2]) or ev.InsertAxis(ev.InsertAxis(a, c(2)), c(2))
+            return ev.TakeDiag(a)
+        if k == 'ravel':
+            a = pick(lambda n: n.ndim >= 2) or ev.InsertAxis(ev.InsertAxis(a, c(2)), c(3))
+            return ev.Ravel(a)
+        if k == 'unravel':
+            n1, n2 = self.length(), self.length()
+            f = pick(lambda n: n.ndim >= 1 and n.shape[-1] == ev.multiply(n1, n2))
+            base = self.new_arg((ev.multiply(n1, n2),), int, *rng.choice(ExprGen.RANGES)) if f is None else f
+            return ev.Unravel(base, n1, n2)
+        if k == 'take':
+            f = pick(lambda n: n.ndim >= 1)
+            if f is None: return ev.InsertAxis(a, c(3))
+            n = f.shape[-1]
+            idx = pick(lambda m: m.dtype == int) or a
+            r = rng.random()
+            if r < .35: idx = ev.Mod(idx, as_shape(ev.Maximum(n, c(1)), idx))            # in [0, max(n,1)-1]
+            elif r < .6: idx = ev.InRange(idx, n)
+            elif r < .8: idx = ev.NormDim(as_shape(n, idx), ev.Mod(idx, as_shape(ev.Maximum(n, c(1)), idx)))
+            else: idx = ev.Minimum(ev.Absolute(idx), as_shape(ev.Maximum(ev.subtract(n, c(1)), c(0)), idx))
+            return ev.Take(f, idx)
+        if k == 'inflate':
+            f = pick(lambda n: n.ndim >= 1) or ev.InsertAxis(a, c(2))
+            length = rng.choice([c(1), c(2), c(4)])
+            nd = rng.choice([1] * 3 + [min(2, f.ndim)] + [0])
+            if nd == 0:
+                return ev.Inflate(f, ev.InRange(ev.Absolute(pick(lambda m: m.dtype == int and m.ndim == 0) or c(0)), length) if rng.random() < .5 else c(0), length)
+            dshape = f.shape[f.ndim-nd:]
+            if all(isinstance(n, ev.Constant) for n in dshape) and rng.random() < .6:
+                shp = tuple(int(n.value) for n in dshape)
+                dof = c(numpy.array([rng.randrange(int(length.value)) for _ in range(int(numpy.prod(shp)))], dtype=int).reshape(shp))
+            else:
+                dof = self.new_arg(dshape, int, 0, int(length.value) - 1)
+            return ev.Inflate(f, dof, length)
+        if k == 'range': return ev.Range(self.length() if rng.random() < .6 else (pick(lambda m: m.dtype == int and m.ndim == 0 and ev._isindex(m)) or c(2)))
+        if k == 'ravelindex':
+            na, nb = self.length(), self.length()
+            ia = ev.Range(na) if rng.random() < .5 else ev.Mod(a, as_shape(ev.Maximum(na, c(1)), a))
+            b = pick(lambda m: m.dtype == int and m.ndim <= 1) or a
+            ib = ev.Range(nb) if rng.random() < .5 else ev.Mod(b, as_shape(ev.Maximum(nb, c(1)), b))
+            if ia.ndim + ib.ndim > 3: ib = ev.Range(nb)
+            return ev.RavelIndex(ia, ib, na, nb)
+        if k == 'offsets':
+            v = pick(lambda n: n.dtype == int and n.ndim == 1) or ev.InsertAxis(a if a.ndim == 0 else ev.Sum(a) if a.ndim == 1 else c(1), self.length())
+            if v.ndim != 1: v = ev.InsertAxis(c(2), self.length())
+            return ev._SizesToOffsets(ev.Absolute(v))
+        if k == 'searchsorted':
+            arr = c(numpy.array(sorted(rng.randint(-3, 4) for _ in range(rng.randint(0, 4))), dtype=int))
+            return ev.SearchSorted(a, arr, None, rng.choice(['left', 'right']))
+        if k == 'argsort':
+            v = pick(lambda n: n.ndim >= 1) or ev.InsertAxis(a, c(3))
+            return ev.ArgSort(v)
+        if k == 'find':
+            v = pick(lambda n: n.dtype == int and n.ndim == 1) or ev.InsertAxis(a if a.ndim == 0 else c(1), self.length())
+            if v.ndim != 1: v = ev.Range(self.length())
+            return ev.Find(ev.Greater(v, as_shape(c(rng.randint(-1, 2)), v)))
+        if k in ('loopsum', 'loopconcat'):
+            lid = '%sL%d' % (self.prefix, self.nloop); self.nloop += 1
+            n = self.length() if rng.random() < .7 else (pick(lambda m: m.dtype == int and m.ndim == 0 and ev._isindex(m)) or c(2))
+            idx = ev.loop_index(lid, n)
+            inner = list(loopidx) + [idx]
+            body_pool = [idx] + [m for m in pool if rng.random() < .5][:6]
+            for _ in range(rng.randint(1, 4)):
+                try:
+                    body_pool.append(self.step(body_pool, inner))
+                except Exception:
+                    pass
+            body = pick(lambda m: m.dtype == int and idx in m.arguments, body_pool) or idx
+            if k == 'loopsum':
+                if any(idx in s.arguments for s in body.shape): body = ev.Sum(body) if body.ndim == 1 else idx
+                return ev.loop_sum(body, idx)
+            if body.ndim == 0: body = ev.InsertAxis(body, rng.choice([c(1), c(2), idx, ev.Add(fms(idx, c(1)))]))
+            if any(idx in s.arguments for s in body.shape[:-1]): body = ev.InsertAxis(idx, idx)
+            return ev.loop_concatenate(body, idx)
+        if k == 'float':
+            f = pick(lambda n: n.dtype == float)
+            x = ev.IntToFloat(a)
+            if f is not None and f.shape == x.shape: return rng.choice([ev.Add(fms(x, f)), ev.Multiply(fms(x, f))])
+            return x
+        if k == 'power':
+            b = same_shape(a)
+            return ev.Power(a, ev.Mod(b, as_shape(c(3), b)))
+        if k == 'inrange': return ev.InRange(ev.Absolute(a), rng.choice([c(3), c(5), self.length()]))
+        if k == 'normdim':
+            n = rng.choice([c(2), c(3), c(4)])
+            return ev.NormDim(as_shape(n, a), ev.subtract(ev.Mod(a, as_shape(ev.multiply(n, c(2)), a)), as_shape(n, a)))
+        if k == 'einsum':
+            v = pick(lambda n: n.dtype == int and n.ndim == 1)
+            if v is None: return ev.InsertAxis(a, c(2))
+            w = same_shape(v)
+            return rng.choice([lambda: ev.Einsum((v, w), ((0,), (0,)), ()), lambda: ev.Einsum((v,), ((0,),), ()), lambda: ev.Einsum((v, w), ((0,), (1,)), (0, 1))])()
+        if k == 'diagonalize':
+            v = pick(lambda n: n.ndim >= 1) or ev.InsertAxis(a, c(2))
+            return ev.Diagonalize(v)
+        if k == 'concat':
+            v = pick(lambda n: n.dtype == int and n.ndim == 1) or ev.InsertAxis(a if a.ndim == 0 else c(1), c(2))
+            if v.ndim != 1: v = ev.Range(c(2))
+            w = pick(lambda n: n.dtype == int and n.ndim == 1) or v
+            return ev.concatenate([v, w], axis=0)
+        if k == 'minmaxconst':
+            return rng.choice([ev.Minimum, ev.Maximum])(a, as_shape(c(rng.randint(-2, 3)), a))
+        if k == 'choose':
+            v = pick(lambda n: n.dtype == int and n.ndim >= 1 and isinstance(n.shape[-1], ev.Constant) and int(n.shape[-1].value) > 0)
+            if v is None: return ev.Absolute(a)
+            nsel = int(v.shape[-1].value)
+            sel = self.new_arg(v.shape[:-1], int, 0, nsel - 1)
+            return ev.Choose(sel, v)
+        if k == 'poly':
+            s = pick(lambda n: n.dtype == int and n.ndim == 0) or c(1)
+            nv = rng.randint(0, 3)
+            if rng.random() < .5:
+                return ev.PolyNCoeffs(nv, ev.Minimum(ev.Absolute(s), c(4)))
+            return ev.PolyDegree(ev.PolyNCoeffs(nv, ev.Minimum(ev.Absolute(s), c(4))), nv)
+        raise AssertionError(k)
+
+    def build(self, nsteps):
+        for _ in range(3): self.pool.append(self.leaf())
+        for _ in range(nsteps):
+            try:
+                node = self.step(self.pool)
+            except Exception as e:   # construction errors of the code under test are outcomes, not harness failures
+                self.nfail = getattr(self, 'nfail', 0) + 1
+                continue
+            if node is not None: self.pool.append(node)
+        return self.pool
+
+    def environment(self):
+        env = {}
+        for name in self.order:
+            env[name] = self.argvals[name](env)
+        return env
+
+
+def bind_loops(node):
+    """all values of `node` over all iterations of the loops whose index is free in it, as one flat array"""
+    ev = lib()[0]
+    f = ev._flat(node) if node.ndim else ev.InsertAxis(node, ev.constant(1))
+    for _ in range(8):
+        free = [a for a in f.arguments if isinstance(a, ev._LoopIndex)]
+        if not free: return f
+        # bind an index on which no other free index's length depends
+        cand = [x for x in free if not any(x in y.length.arguments for y in free if y is not x)]
+        f = ev.loop_concatenate(f, (cand or free)[0])
+    return None
+
+
+def stream_dag(c):
+    ev = lib()[0]
+    ndags = 40 if c.tier == 'quick' else 900
+    stats = collections.Counter()
+    nviol = collections.Counter()
+    unexpected = []
+    for idag in range(ndags):
+        g = DagGen(c.rng)
+        pool = g.build(c.rng.randint(6, 14))
+        stats['construction-failures'] += getattr(g, 'nfail', 0)
+        try:
+            env = g.environment()
+        except Exception as e:
+            stats['env-fail:' + type(e).__name__] += 1; continue
+        nodes = {}
+        for root in pool: walk(root, nodes)
+        stats['dags'] += 1
+        for sub in nodes.values():
+            if not isinstance(sub, ev.Array): continue
+            cls = type(sub).__name__
+            has_loopidx = any(isinstance(a, ev._LoopIndex) for a in sub.arguments)
+            # ---- integer range at every loop iteration
+            if sub.dtype == int:
+                try:
+                    lo, hi = sub._intbounds
+                except AssertionError:
+                    stats['bounds-raise:' + cls] += 1; lo = None
+                except Exception as e:
+                    stats['bounds-exc:%s:%s' % (cls, type(e).__name__)] += 1; lo = None
+                if lo is not None:
+                    try:
+                        f = bind_loops(sub)
+                    except Exception as e:
+                        f = None; unexpected.append('bind_loops(%s): %s: %s' % (cls, type(e).__name__, str(e)[:120]))
+                    try:
+                        with numpy.errstate(all='ignore'):
+                            vals = flat_ints(evaluate(f, env)) if f is not None else None
+                    except Exception as e:
+                        vals = None; stats['eval-raise'] += 1
+                    if vals is not None:
+                        stats['intnodes'] += 1; c.count('dag-int:' + cls); c.traces += 1
+                        if has_loopidx: stats['intnodes-in-loop'] += 1; c.count('dag-int-in-loop:' + cls)
+                        c.case(('dag', idag, cls, len(nodes), lo, hi, tuple(vals[:6])), nontrivial=len(vals) > 0)
+                        out = [v for v in vals if not (lo <= v <= hi)]
+                        if out:
+                            nviol['range'] += 1
+                            c.failing_input('intbounds-unsound:' + cls, '%s node evaluates to %r outside its announced range (%s, %s)' % (cls, out[0], snum(lo), snum(hi)),
+                                            dict(stream='dag', node=repr(sub)[:600], cls=cls, announced=[snum(lo), snum(hi)], values=vals[:40], arguments={k: numpy.asarray(v).tolist() for k, v in env.items()}, in_loop=has_loopidx))
+            # ---- announced shape / dtype / ndim / arguments of loop-free nodes
+            if has_loopidx: continue
+            try:
+                with numpy.errstate(all='ignore'):
+                    val = numpy.asarray(evaluate(sub, env))
+            except Exception as e:
+                stats['eval-raise'] += 1; continue
+            stats['metanodes'] += 1; c.count('dag-meta:' + cls)
+            try:
+                shape = tuple(int(n.__index__()) if n.isconstant else int(evaluate(n, env)) for n in sub.shape)
+            except Exception as e:
+                shape = 'shape evaluation raises %s' % type(e).__name__
+            kind = {bool: 'b', int: 'i', float: 'f', complex: 'c'}[sub.dtype]
+            what = None
+            if val.ndim != sub.ndim: what = 'ndim %d announced, %d delivered' % (sub.ndim, val.ndim)
+            elif shape != val.shape: what = 'shape %r announced, %r delivered' % (shape, val.shape)
+            elif val.dtype.kind != kind: what = 'dtype %s announced, %s delivered' % (kind, val.dtype.kind)
+            if what:
+                nviol['meta'] += 1
+                c.failing_input('metadata-wrong:' + cls, '%s: %s' % (cls, what), dict(stream='dag', node=repr(sub)[:600], cls=cls, what=what, arguments={k: numpy.asarray(v).tolist() for k, v in env.items()}))
+                continue
+            # result independent of arguments that are not announced
+            announced = {a.name for a in sub.arguments if isinstance(a, ev.Argument)}
+            others = [k for k in env if k not in announced]
+            if others and c.rng.random() < .5:
+                env2 = dict(env)
+                for k in others:
+                    v = numpy.asarray(env[k])
+                    env2[k] = (~v) if v.dtype == bool else v + (1 if v.dtype.kind == 'i' else .5)
+                try:
+                    with numpy.errstate(all='ignore'):
+                        val2 = numpy.asarray(evaluate(sub, env2))
+                    same = val2.shape == val.shape and (val2 == val).all()
+                except Exception as e:
+                    same = None   # un-announced shape arguments can only make the evaluation raise (shape check of an Argument)
+                    stats['perturbed-raises'] += 1
+                stats['perturbations'] += 1
+                if same is False:
+                    nviol['arguments'] += 1
+                    c.failing_input('arguments-incomplete:' + cls, '%s: value changes when arguments that are not announced are perturbed' % cls,
+                                    dict(stream='dag', node=repr(sub)[:600], cls=cls, announced=sorted(announced), perturbed=others, arguments={k: numpy.asarray(v).tolist() for k, v in env.items()}))
+            # evaluating with ONLY the announced arguments must succeed with the same value
+            if c.rng.random() < .3:
+                try:
+                    with numpy.errstate(all='ignore'):
+                        val3 = numpy.asarray(evaluate(sub, {k: v for k, v in env.items() if k in announced or any(k == a.name for s in walk(sub).values() if isinstance(s, ev.Argument) for a in [s])}))
+                    ok3 = val3.shape == val.shape and (val3 == val).all()
+                except Exception as e:
+                    ok3 = False
+                stats['announced-only'] += 1
+                if not ok3:
+                    nviol['arguments'] += 1
+                    c.failing_input('arguments-incomplete:' + cls, '%s: evaluation with only the announced arguments fails or differs' % cls,
+                                    dict(stream='dag', node=repr(sub)[:600], cls=cls, announced=sorted(announced), arguments={k: numpy.asarray(v).tolist() for k, v in env.items()}))
+        # ---- consumers: the simplified / optimized roots deliver the same values
+        for root in pool[-3:]:
+            if any(isinstance(a, ev._LoopIndex) for a in root.arguments): continue
+            try:
+                with numpy.errstate(all='ignore'):
+                    v0 = numpy.asarray(evaluate(root, env))
+            except Exception:
+                continue
+            try:
+                with numpy.errstate(all='ignore'):
+                    v1 = numpy.asarray(evaluate(root, env, simplify=True))
+            except Exception as e:
+                stats['simplify-raises:' + type(e).__name__] += 1; continue
+            stats['simplified-roots'] += 1
+            if v0.shape != v1.shape or not (v0 == v1).all():
+                culprit = first_unsound(root, env)
+                if culprit:
+                    nviol['range'] += 1
+                    c.failing_input('intbounds-unsound:' + culprit, 'simplified DAG differs and a %s sub-node leaves its range' % culprit, dict(stream='dag-simplify', node=repr(root)[:600]))
+                else:
+                    stats['simplified-differs-no-range-culprit'] += 1
+    for k, v in stats.items(): c.count('dag:' + k, v)
+    if unexpected:
+        c.broken_no_input('dag:unexpected-exception', 'the real code raises where the pinned tree does not: ' + unexpected[0], dict(stream='dag', exceptions=unexpected[:20]))
+    c.obligation('dag:no-unexpected-exception', not unexpected, 'exploration', '%d' % len(unexpected))
+    c.sample(dict(stream='dag', dags=stats['dags'], int_nodes=stats['intnodes'], int_nodes_inside_loops=stats['intnodes-in-loop'], meta_nodes=stats['metanodes']))
+    c.obligation('dag:values-in-range', nviol['range'] == 0, 'exploration', '%d integer nodes (%d with a free loop index) evaluated at every iteration' % (stats['intnodes'], stats['intnodes-in-loop']))
+    c.obligation('dag:shape-dtype-ndim', nviol['meta'] == 0, 'exploration', '%d nodes' % stats['metanodes'])
+    c.obligation('dag:arguments', nviol['arguments'] == 0, 'exploration', '%d perturbations of un-announced arguments, %d announced-only evaluations' % (stats['perturbations'], stats['announced-only']))
+
+
+# ---------------------------------------------------------------------------------------------------------------------
+# (V) function.Array compositions on samples of small topologies
+
+def stream_func(c):
+    from nutils import mesh, function
+    rng = c.rng
+    nrounds = 12 if c.tier == 'quick' else 250
+    kinds = {bool: 'b', int: 'i', float: 'f', complex: 'c'}
+    nbad = collections.Counter(); nchecked = 0
+    for iround in range(nrounds):
+        dim = rng.choice([1, 2, 2])
+        if dim == 1:
+            topo, geom = mesh.line(rng.randint(1, 3), space='X')
+            geom = geom[numpy.newaxis] if geom.ndim == 0 else geom
+        else:
+            topo, geom = mesh.rectilinear([rng.randint(1, 2), rng.randint(1, 3)])
+        basis = topo.basis(rng.choice(['std', 'discont']), degree=rng.choice([1, 2]))
+        argspecs = {}
+        def newarg(shape, dtype):
+            name = 'p%d' % len(argspecs); argspecs[name] = (tuple(shape), dtype)
+            return function.Argument(name, tuple(shape), dtype=dtype)
+        pool = [geom, basis, newarg(basis.shape, float), newarg((), float), newarg((2,), int), topo.f_index,
+                function.Array.cast(numpy.array([1, -2, 3])), function.Array.cast(numpy.array([[1., 2.], [3., 4.]])), function.Array.cast(numpy.array([True, False]))]
+        def pick(pred=lambda f: True, default=None):
+            cands = [f for f in pool if pred(f)]
+            return rng.choice(cands) if cands else default
+        for _ in range(rng.randint(6, 14)):
+            a = pick()
+            k = rng.choice(['add', 'mul', 'neg', 'abs', 'sin', 'sum', 'stack', 'getitem', 'newaxis', 'transpose', 'cmp', 'where', 'dot', 'grad', 'minmax', 'intops', 'power', 'deriv', 'concat', 'sign', 'einsum', 'reshape', 'take'])
+            try:
+                if k in ('add', 'mul', 'minmax', 'cmp'):
+                    b = pick(lambda f: f.ndim == 0 or f.shape == a.shape or a.ndim == 0, a)
+                    if a.dtype == bool and k in ('add', 'mul'): a = a.astype(int) if hasattr(a, 'astype') else a
+                    r = {'add': lambda: a + b, 'mul': lambda: a * b, 'minmax': lambda: rng.choice([numpy.minimum, numpy.maximum])(a, b),
+                         'cmp': lambda: rng.choice([numpy.greater, numpy.less, numpy.equal])(a, b)}[k]()
+                elif k == 'neg': r = -a if a.dtype != bool else ~a
+                elif k == 'abs': r = abs(a) if a.dtype != bool else a
+                elif k == 'sin': r = numpy.sin(a) if a.dtype in (float, int) else a
+                elif k == 'sign': r = numpy.sign(a) if a.dtype in (float, int) else a
+                elif k == 'sum': r = numpy.sum(a, axis=rng.randrange(a.ndim)) if a.ndim and a.dtype != bool else a
+                elif k == 'stack':
+                    b = pick(lambda f: f.shape == a.shape and f.dtype == a.dtype, a)
+                    r = numpy.stack([a, b], axis=rng.randint(0, a.ndim))
+                elif k == 'concat':
+                    a = pick(lambda f: f.ndim >= 1, geom)
+                    b = pick(lambda f: f.ndim == a.ndim and f.shape[1:] == a.shape[1:] and f.dtype == a.dtype, a)
+                    r = numpy.concatenate([a, b], axis=0)
+                elif k == 'getitem':
+                    a = pick(lambda f: f.ndim >= 1 and f.shape[0] > 0, geom)
+                    r = a[rng.randrange(a.shape[0])] if rng.random() < .5 else a[::rng.choice([1, 2, -1])] if rng.random() < .5 else a[..., :1]
+                elif k == 'newaxis': r = a[numpy.newaxis] if rng.random() < .5 else a[..., numpy.newaxis]
+                elif k == 'transpose': r = numpy.transpose(a) if a.ndim >= 2 else a
+                elif k == 'where':
+                    cnd = pick(lambda f: f.dtype == bool)
+                    b = pick(lambda f: f.shape == cnd.shape and f.dtype != bool) if cnd is not None else None
+                    r = numpy.choose(cnd.astype(int) if hasattr(cnd, 'astype') else cnd, [b, -b]) if b is not None else a
+                elif k == 'dot':
+                    a = pick(lambda f: f.ndim >= 1 and f.dtype != bool, geom)
+                    b = pick(lambda f: f.ndim >= 1 and f.shape[0] == a.shape[-1] and f.dtype != bool)
+                    r = a @ b if b is not None else numpy.sum(a * a, axis=-1)
+                elif k == 'grad': r = function.grad(a, geom) if a.dtype == float else a
+                elif k == 'intops':
+                    a = pick(lambda f: f.dtype == int, topo.f_index)
+                    r = rng.choice([lambda: a // 2, lambda: a % 3, lambda: a * a, lambda: numpy.abs(a) + 1, lambda: numpy.minimum(a, 1)])()
+                elif k == 'power': r = a ** 2 if a.dtype in (float, int) else a
+                elif k == 'deriv':
+                    name = rng.choice(list(argspecs))
+                    r = function.derivative(a, name) if a.dtype == float and argspecs[name][1] == float else a
+                elif k == 'einsum': r = numpy.einsum('i,i->', a, a) if a.ndim == 1 and a.dtype != bool else numpy.einsum('ij->ji', a) if a.ndim == 2 else a
+                elif k == 'reshape': r = numpy.reshape(a, (-1,)) if a.ndim >= 2 else numpy.reshape(a, a.shape + (1,))
+                elif k == 'take':
+                    a = pick(lambda f: f.ndim >= 1 and f.shape[0] > 0, geom)
+                    r = numpy.take(a, numpy.array([0, a.shape[0]-1, 0]), axis=0)
+                else: r = a
+            except Exception as e:
+                c.count('func-build-exc:' + type(e).__name__); continue
+            if isinstance(r, function.Array) and r.ndim <= 4 and int(numpy.prod(r.shape or (1,))) <= 400:
+                pool.append(r); c.count('func-op:' + k)
+        samples = [topo.sample('gauss', rng.choice([1, 2])), topo.sample('uniform', 1), topo.boundary.sample('gauss', 1)]
+        args_all = {n: (numpy.array([rng.randint(-3, 3) for _ in range(int(numpy.prod(s or (1,))))], dtype=int).reshape(s) if d == int else
+                        numpy.array([rng.randint(-8, 8) / 4 for _ in range(int(numpy.prod(s or (1,))))], dtype=float).reshape(s)) for n, (s, d) in argspecs.items()}
+        for f in pool:
+            smp = rng.choice(samples)
+            announced = dict(f.arguments)
+            what = None
+            # the tables themselves
+            if not (isinstance(f.shape, tuple) and all(isinstance(n, int) for n in f.shape) and f.ndim == len(f.shape) and f.dtype in kinds):
+                what = 'malformed tables shape=%r dtype=%r ndim=%r' % (f.shape, f.dtype, f.ndim)
+            elif any(n not in argspecs or (tuple(s), d) != argspecs[n] for n, (s, d) in announced.items()):
+                what = 'announced arguments %r do not match the arguments it was built from %r' % (announced, argspecs)
+            else:
+                try:
+                    with numpy.errstate(all='ignore'):
+                        val = numpy.asarray(smp.eval(f, {n: args_all[n] for n in announced}))        # ONLY the announced arguments
+                except Exception as e:
+                    val = None; what = 'evaluation with exactly the announced arguments raises %s: %s' % (type(e).__name__, str(e)[:100])
+                if val is not None:
+                    nchecked += 1; c.traces += 1
+                    c.case(('func', iround, f.shape, f.dtype.__name__, tuple(sorted(announced))), nontrivial=True)
+                    if val.ndim != f.ndim + 1 or val.shape[1:] != f.shape: what = 'shape %r announced, %r delivered (after the point axis)' % (f.shape, val.shape[1:])
+                    elif val.dtype.kind != kinds[f.dtype]: what = 'dtype %s announced, %s delivered' % (f.dtype.__name__, val.dtype)
+                    else:
+                        with numpy.errstate(all='ignore'):
+                            val2 = numpy.asarray(smp.eval(f, {n: (v if n in announced else v + 1) for n, v in args_all.items()}))
+                        if val2.shape != val.shape or not ((val2 == val) | ((val2 != val2) & (val != val))).all():
+                            what = 'value changes with arguments that are not announced'
+                    if what is None and f.dtype != bool and rng.random() < .3:
+                        with numpy.errstate(all='ignore'):
+                            integral = numpy.asarray(smp.integrate(f, {n: args_all[n] for n in announced}))
+                        if integral.shape != f.shape: what = 'integral has shape %r, announced %r' % (integral.shape, f.shape)
+            if what:
+                nbad[what.split()[0]] += 1
+                c.failing_input('function-metadata-wrong:' + type(f).__name__, 'function.Array %s: %s' % (type(f).__name__, what),
+                                dict(stream='func', cls=type(f).__name__, what=what, shape=list(f.shape), dtype=f.dtype.__name__, announced={k: [list(s), d.__name__] for k, (s, d) in announced.items()}))
+    c.count('func-arrays-checked', nchecked)
+    c.obligation('func:shape-dtype-arguments', not nbad, 'exploration', '%d function arrays evaluated on samples' % nchecked)
+
+
+# ---------------------------------------------------------------------------------------------------------------------
+# (M) consumers of ranges on the operand-range grid: which rewrite fires (vs the Lean `simp*` functions) and whether it preserves values
+
+def stream_consumers(c):
+    ev = lib()[0]
+    quick = c.tier == 'quick'
+    cons = [('inRange', lambda x, y: ev.InRange(x, y), lambda x, y: x if 0 <= x < y else None),
+            ('mod', lambda x, y: ev.Mod(x, y), lambda x, y: x % y if y else None),
+            ('min', lambda x, y: ev.Minimum(x, y), min),
+            ('max', lambda x, y: ev.Maximum(x, y), max),
+            ('normDim', lambda x, y: ev.NormDim(x, y), normdim_spec)]
+    cases = []
+    rs = all_ranges(G)
+    for name, mk, spec in cons:
+        combos = list(itertools.product(rs, rs))
+        if quick: combos = c.rng.sample(combos, 600)
+        for r1, r2 in combos:
+            x, y = S('x', r1), S('y', r2)
+            try:
+                node = mk(x, y)
+                res = node._simplified()
+            except AssertionError:
+                c.count('consumer-ctor-raise:' + name); continue
+            fired = '0' if res is x else '1' if res is y else 'none' if res is None else 'other'
+            cases.append((name, r1, r2, node, res, fired, spec))
+    ans = c.model(['expr|%s argS 0 %s argS 1 %s||' % (name, srng(r1), srng(r2)) for name, r1, r2, *_ in cases])
+    ndis = collections.Counter(); nfired = collections.Counter(); nunsound = 0
+    for (name, r1, r2, node, res, fired, spec), a in zip(cases, ans):
+        f = dict(t.split('=', 1) for t in a.split(';'))
+        c.count('consumer-grid:' + name)
+        replay = dict(stream='consumers', consumer=name, ranges=[srng(r1), srng(r2)], real=fired, model=f['simp'])
+        # oracle: a fired rewrite must preserve the value for all operand values inside the ranges
+        bad = None
+        if fired in ('0', '1'):
+            nfired[name] += 1
+            for vx in conc(r1):
+                for vy in conc(r2):
+                    want = spec(vx, vy)
+                    if want is not None and want != (vx, vy)[int(fired)]:
+                        bad = (vx, vy, want); break
+                if bad: break
+        c.case(('consumer', name, r1, r2), nontrivial=fired != 'none')
+        if bad:
+            vx, vy, want = bad
+            try:
+                raw = flat_ints(evaluate(node, dict(x=vx, y=vy)))
+                simp = flat_ints(evaluate(res, dict(x=vx, y=vy)))
+            except Exception as e:
+                raw, simp = 'exception', repr(e)[:80]
+            if raw != simp:
+                nunsound += 1
+                c.failing_input('consumer-unsound:' + type(node).__name__, '%s._simplified replaces the node by an operand although the value differs: operands %r give %r, the rewrite gives %r' % (
+                    type(node).__name__, (vx, vy), raw, simp), dict(replay, values=[vx, vy], raw=raw, simplified=simp))
+                continue
+        if fired != 'other' and fired != f['simp']:
+            ndis[name] += 1
+            c.broken_no_input('corr:consumer:' + name, 'consumer %s fires differently: real %s, model %s for operand ranges %s, %s' % (name, fired, f['simp'], srng(r1), srng(r2)), replay)
+    for name, *_ in cons:
+        c.obligation('corr:consumer:' + name, ndis[name] == 0, 'correspondence', '%d range pairs, rewrite fired %d times' % (c.counters.get('consumer-grid:' + name, 0), nfired[name]))
+    # ---- _isindex, Power.__post_init__, InsertAxis._inverse: thresholds on the lower endpoint
+    nthr = 0; bad_thr = 0
+    for r in rs:
+        x = S('q', r)
+        # _isindex
+        got = bool(ev._isindex(x)); want = r[0] >= 0; nthr += 1
+        if got != want:
+            bad_thr += 1
+            if got and not want:
+                c.failing_input('consumer-unsound:_isindex', '_isindex accepts a scalar whose range %s contains negative values' % srng(r), dict(stream='consumers', consumer='_isindex', range=srng(r)))
+            else:
+                c.broken_no_input('corr:consumer:_isindex', '_isindex rejects a scalar with range %s' % srng(r), dict(range=srng(r)))
+        # Power with an integer exponent
+        try:
+            p = ev.Power(S('b', (1, 5)), x); got = True
+        except AssertionError:
+            got = False
+        nthr += 1
+        if got != want:
+            bad_thr += 1
+            if got:
+                v = max(r[0], -2) if r[0] != -inf else -1
+                try:
+                    evaluate(p, dict(b=2, q=int(v))); outcome = 'evaluates'
+                except Exception as e:
+                    outcome = 'raises ' + type(e).__name__
+                c.failing_input('consumer-unsound:Power', 'Power accepts an integer exponent with range %s; exponent %d %s' % (srng(r), v, outcome), dict(stream='consumers', consumer='Power', range=srng(r)))
+            else:
+                c.broken_no_input('corr:consumer:Power', 'Power rejects an integer exponent with range %s' % srng(r), dict(range=srng(r)))
+        # InsertAxis._inverse: a square matrix with an inserted axis of length >= 2 is singular
+        if r[0] >= 0:
+            L = S('L', r)
+            M = ev.InsertAxis(ev.Argument('m', (L,), float), L)
+            res = M._inverse(0, 1)
+            got = res is not None; want = r[0] > 1; nthr += 1
+            if got != want:
+                bad_thr += 1
+                if got and r[0] <= 1 <= r[1]:
+                    raw = evaluate(ev.Inverse(M), dict(L=1, m=numpy.array([4.])))
+                    simp = evaluate(res, dict(L=1, m=numpy.array([4.])))
+                    c.failing_input('consumer-unsound:InsertAxis._inverse', 'InsertAxis._inverse declares a matrix singular whose size range %s contains 1: inverse %r, rewrite %r' % (srng(r), raw.tolist(), numpy.asarray(simp).tolist()),
+                                    dict(stream='consumers', consumer='InsertAxis._inverse', range=srng(r)))
+                else:
+                    c.broken_no_input('corr:consumer:InsertAxis._inverse', 'InsertAxis._inverse fires=%s for a size range %s' % (got, srng(r)), dict(range=srng(r)))
+    c.obligation('corr:consumer:thresholds', bad_thr == 0, 'correspondence', '%d threshold decisions (_isindex, Power, InsertAxis._inverse)' % nthr)
